@@ -688,7 +688,7 @@ package tengo
 //@   ensures length: len(c.scopes[c.scopeIndex].Instructions) == len(ins0) + 1 + int(spec.sumw(opcode))
 //@   ensures opc: c.scopes[c.scopeIndex].Instructions[result] == opcode
 //@   ensures prefix: forall i in 0..len(ins0) :: c.scopes[c.scopeIndex].Instructions[i] == old(c.scopes[c.scopeIndex].Instructions[i])
-//@   ensures array: samearray(c.scopes[c.scopeIndex].Instructions, ins0) || fresh(c.scopes[c.scopeIndex].Instructions)
+//@   ensures array: samestore(c.scopes[c.scopeIndex].Instructions, ins0) || fresh(c.scopes[c.scopeIndex].Instructions)
 //@   ensures operand1: spec.parser_OpcodeOperands_len(int64(opcode)) >= 1 && spec.parser_OpcodeOperands_at(int64(opcode), 0) == 1
 //@              ==> c.scopes[c.scopeIndex].Instructions[result+1] == byte(operands[0])
 
@@ -753,7 +753,7 @@ package tengo
 //@   ensures idx: c.scopeIndex == old(c.scopeIndex) + 1 && len(c.scopes) == old(len(c.scopes)) + 1 && c.scopeIndex == len(c.scopes) - 1
 //@   ensures scope: c.scopes[c.scopeIndex].SourceMap != nil && c.scopes[c.scopeIndex].Instructions == nil
 //@   ensures st: c.symbolTable != nil && fresh(c.symbolTable) && c.symbolTable.parent == old(c.symbolTable) && !c.symbolTable.block
-//@   ensures below: forall j in 0..old(len(c.scopes)) :: sameslice(c.scopes[j].Instructions, old(c.scopes[j].Instructions)) && c.scopes[j].SourceMap == old(c.scopes[j].SourceMap)
+//@   ensures below: forall j in 0..old(len(c.scopes)) at(old(c.scopeIndex)) :: sameslice(c.scopes[j].Instructions, old(c.scopes[j].Instructions)) && c.scopes[j].SourceMap == old(c.scopes[j].SourceMap)
 
 //@ func (*Compiler).error
 //@   requires c.file != nil
@@ -795,11 +795,12 @@ package tengo
 //@   let st0 = old(c.symbolTable)
 //@   maintain m_len{C02!}: callok && c.scopeIndex == old(c.scopeIndex) && sameslice(c.scopes, old(c.scopes)) ==> len(c.scopes[c.scopeIndex].Instructions) >= len(ins0)
 //@   maintain m_prefix{C02!}: callok && c.scopeIndex == old(c.scopeIndex) ==> forall i in 0..len(ins0) :: c.scopes[c.scopeIndex].Instructions[i] == old(c.scopes[c.scopeIndex].Instructions[i])
+//@   maintain m_store{C02!}: callok && c.scopeIndex == old(c.scopeIndex) && sameslice(c.scopes, old(c.scopes)) ==> samestore(c.scopes[c.scopeIndex].Instructions, ins0) || fresh(c.scopes[c.scopeIndex].Instructions)
 //@   ensures keep{C02,C09,C11,C13}: result == nil ==> c.symbolTable == st0
 //@                   && c.scopeIndex == old(c.scopeIndex) && c.scopeIndex == len(c.scopes) - 1 && c.scopes[c.scopeIndex].SourceMap != nil
 //@   ensures grows{C02!}: result == nil ==> len(c.scopes[c.scopeIndex].Instructions) >= len(ins0)
-//@   ensures array{C02!}: result == nil ==> samearray(c.scopes[c.scopeIndex].Instructions, ins0) || fresh(c.scopes[c.scopeIndex].Instructions)
-//@   ensures below{C02!}: result == nil ==> forall j in 0..c.scopeIndex ::
+//@   ensures array{C02!}: result == nil ==> samestore(c.scopes[c.scopeIndex].Instructions, ins0) || fresh(c.scopes[c.scopeIndex].Instructions)
+//@   ensures below{C02!}: result == nil ==> forall j in 0..c.scopeIndex at(c.scopeIndex - 1) ::
 //@                   sameslice(c.scopes[j].Instructions, old(c.scopes[j].Instructions)) && c.scopes[j].SourceMap == old(c.scopes[j].SourceMap)
 //@   ensures prefix{C02!}: result == nil ==> forall i in 0..len(ins0) :: c.scopes[c.scopeIndex].Instructions[i] == old(c.scopes[c.scopeIndex].Instructions[i])
 //@   ensures export_immutable{C09,C13}: is(node, *parser.ExportStmt) && result == nil && c.parent != nil
@@ -808,28 +809,28 @@ package tengo
 //@                  && c.scopes[c.scopeIndex].Instructions[len(c.scopes[c.scopeIndex].Instructions)-2] == parser.OpReturn
 //@                  && c.scopes[c.scopeIndex].Instructions[len(c.scopes[c.scopeIndex].Instructions)-1] == 1
 //@   loop 0 invariant k: c.symbolTable == st0 && c.scopeIndex == old(c.scopeIndex) && c.scopeIndex == len(c.scopes) - 1 && c.scopes[c.scopeIndex].SourceMap != nil
-//@   loop 0 invariant g{C02!}: len(c.scopes[c.scopeIndex].Instructions) >= len(ins0) && (samearray(c.scopes[c.scopeIndex].Instructions, ins0) || fresh(c.scopes[c.scopeIndex].Instructions))
+//@   loop 0 invariant g{C02!}: len(c.scopes[c.scopeIndex].Instructions) >= len(ins0) && (samestore(c.scopes[c.scopeIndex].Instructions, ins0) || fresh(c.scopes[c.scopeIndex].Instructions))
 //@   loop 0 invariant b{C02!}: forall j in 0..c.scopeIndex :: sameslice(c.scopes[j].Instructions, old(c.scopes[j].Instructions)) && c.scopes[j].SourceMap == old(c.scopes[j].SourceMap)
 //@   loop 0 invariant p{C02!}: forall i in 0..len(ins0) :: c.scopes[c.scopeIndex].Instructions[i] == old(c.scopes[c.scopeIndex].Instructions[i])
 //@   loop 1 invariant k: c.symbolTable != nil && c.symbolTable.parent == st0 && c.scopeIndex == old(c.scopeIndex) && c.scopeIndex == len(c.scopes) - 1 && c.scopes[c.scopeIndex].SourceMap != nil
-//@   loop 1 invariant g{C02!}: len(c.scopes[c.scopeIndex].Instructions) >= len(ins0) && (samearray(c.scopes[c.scopeIndex].Instructions, ins0) || fresh(c.scopes[c.scopeIndex].Instructions))
+//@   loop 1 invariant g{C02!}: len(c.scopes[c.scopeIndex].Instructions) >= len(ins0) && (samestore(c.scopes[c.scopeIndex].Instructions, ins0) || fresh(c.scopes[c.scopeIndex].Instructions))
 //@   loop 1 invariant b{C02!}: forall j in 0..c.scopeIndex :: sameslice(c.scopes[j].Instructions, old(c.scopes[j].Instructions)) && c.scopes[j].SourceMap == old(c.scopes[j].SourceMap)
 //@   loop 1 invariant p{C02!}: forall i in 0..len(ins0) :: c.scopes[c.scopeIndex].Instructions[i] == old(c.scopes[c.scopeIndex].Instructions[i])
 //@   loop 2 invariant k: c.symbolTable == st0 && c.scopeIndex == old(c.scopeIndex) && c.scopeIndex == len(c.scopes) - 1 && c.scopes[c.scopeIndex].SourceMap != nil
-//@   loop 2 invariant g{C02!}: len(c.scopes[c.scopeIndex].Instructions) >= len(ins0) && (samearray(c.scopes[c.scopeIndex].Instructions, ins0) || fresh(c.scopes[c.scopeIndex].Instructions))
+//@   loop 2 invariant g{C02!}: len(c.scopes[c.scopeIndex].Instructions) >= len(ins0) && (samestore(c.scopes[c.scopeIndex].Instructions, ins0) || fresh(c.scopes[c.scopeIndex].Instructions))
 //@   loop 2 invariant b{C02!}: forall j in 0..c.scopeIndex :: sameslice(c.scopes[j].Instructions, old(c.scopes[j].Instructions)) && c.scopes[j].SourceMap == old(c.scopes[j].SourceMap)
 //@   loop 2 invariant p{C02!}: forall i in 0..len(ins0) :: c.scopes[c.scopeIndex].Instructions[i] == old(c.scopes[c.scopeIndex].Instructions[i])
 //@   loop 3 invariant k: c.symbolTable == st0 && c.scopeIndex == old(c.scopeIndex) && c.scopeIndex == len(c.scopes) - 1 && c.scopes[c.scopeIndex].SourceMap != nil
-//@   loop 3 invariant g{C02!}: len(c.scopes[c.scopeIndex].Instructions) >= len(ins0) && (samearray(c.scopes[c.scopeIndex].Instructions, ins0) || fresh(c.scopes[c.scopeIndex].Instructions))
+//@   loop 3 invariant g{C02!}: len(c.scopes[c.scopeIndex].Instructions) >= len(ins0) && (samestore(c.scopes[c.scopeIndex].Instructions, ins0) || fresh(c.scopes[c.scopeIndex].Instructions))
 //@   loop 3 invariant b{C02!}: forall j in 0..c.scopeIndex :: sameslice(c.scopes[j].Instructions, old(c.scopes[j].Instructions)) && c.scopes[j].SourceMap == old(c.scopes[j].SourceMap)
 //@   loop 3 invariant p{C02!}: forall i in 0..len(ins0) :: c.scopes[c.scopeIndex].Instructions[i] == old(c.scopes[c.scopeIndex].Instructions[i])
 //@   loop 6 invariant k: c.symbolTable == st0 && c.scopeIndex == old(c.scopeIndex) && c.scopeIndex == len(c.scopes) - 1 && c.scopes[c.scopeIndex].SourceMap != nil
-//@   loop 6 invariant g{C02!}: len(c.scopes[c.scopeIndex].Instructions) >= len(ins0) && (samearray(c.scopes[c.scopeIndex].Instructions, ins0) || fresh(c.scopes[c.scopeIndex].Instructions))
+//@   loop 6 invariant g{C02!}: len(c.scopes[c.scopeIndex].Instructions) >= len(ins0) && (samestore(c.scopes[c.scopeIndex].Instructions, ins0) || fresh(c.scopes[c.scopeIndex].Instructions))
 //@   loop 6 invariant b{C02!}: forall j in 0..c.scopeIndex :: sameslice(c.scopes[j].Instructions, old(c.scopes[j].Instructions)) && c.scopes[j].SourceMap == old(c.scopes[j].SourceMap)
 //@   loop 6 invariant p{C02!}: forall i in 0..len(ins0) :: c.scopes[c.scopeIndex].Instructions[i] == old(c.scopes[c.scopeIndex].Instructions[i])
 //@   loop 4 invariant k: c.symbolTable != nil && c.symbolTable.parent == st0 && !c.symbolTable.block && c.scopeIndex == old(c.scopeIndex) + 1 && c.scopeIndex == len(c.scopes) - 1
 //@                   && c.scopes[c.scopeIndex].SourceMap != nil && c.scopes[c.scopeIndex].Instructions == nil
-//@   loop 4 invariant b{C02!}: forall j in 0..old(c.scopeIndex)+1 :: sameslice(c.scopes[j].Instructions, old(c.scopes[j].Instructions)) && c.scopes[j].SourceMap == old(c.scopes[j].SourceMap)
+//@   loop 4 invariant b{C02!}: forall j in 0..old(c.scopeIndex)+1 at(old(c.scopeIndex)) :: sameslice(c.scopes[j].Instructions, old(c.scopes[j].Instructions)) && c.scopes[j].SourceMap == old(c.scopes[j].SourceMap)
 //@   loop 5 step preinit_defines{C11,C01}: continued && len(c.scopes[c.scopeIndex].Instructions) > it0(len(c.scopes[c.scopeIndex].Instructions))
 //@                   && c.scopes[c.scopeIndex].Instructions[it0(len(c.scopes[c.scopeIndex].Instructions))] == parser.OpNull
 //@              ==> c.scopes[c.scopeIndex].Instructions[it0(len(c.scopes[c.scopeIndex].Instructions))+1] == parser.OpDefineLocal
@@ -846,8 +847,11 @@ package tengo
 //@   loop 5 step capture_free{C11}: continued && it0(sym.Scope == ScopeFree)
 //@              ==> len(c.scopes[c.scopeIndex].Instructions) == L5 + 2
 //@                  && c.scopes[c.scopeIndex].Instructions[L5] == parser.OpGetFreePtr && c.scopes[c.scopeIndex].Instructions[L5+1] == byte(sym.Index)
-//@   loop 5 invariant k: c.symbolTable == st0 && c.scopeIndex == old(c.scopeIndex) && c.scopeIndex == len(c.scopes) - 1 && c.scopes[c.scopeIndex].SourceMap != nil
-//@   loop 5 invariant g{C02!}: len(c.scopes[c.scopeIndex].Instructions) >= len(ins0) && (samearray(c.scopes[c.scopeIndex].Instructions, ins0) || fresh(c.scopes[c.scopeIndex].Instructions))
+//@   loop 5 invariant k1: c.symbolTable == st0
+//@   loop 5 invariant k2: c.scopeIndex == old(c.scopeIndex)
+//@   loop 5 invariant k3: c.scopeIndex == len(c.scopes) - 1
+//@   loop 5 invariant k4: c.scopes[c.scopeIndex].SourceMap != nil
+//@   loop 5 invariant g{C02!}: len(c.scopes[c.scopeIndex].Instructions) >= len(ins0) && (samestore(c.scopes[c.scopeIndex].Instructions, ins0) || fresh(c.scopes[c.scopeIndex].Instructions))
 //@   loop 5 invariant b{C02!}: forall j in 0..c.scopeIndex :: sameslice(c.scopes[j].Instructions, old(c.scopes[j].Instructions)) && c.scopes[j].SourceMap == old(c.scopes[j].SourceMap)
 //@   loop 5 invariant p{C02!}: forall i in 0..len(ins0) :: c.scopes[c.scopeIndex].Instructions[i] == old(c.scopes[c.scopeIndex].Instructions[i])
 
@@ -863,7 +867,7 @@ package tengo
 //@   assigns c.scopes, c.scopeIndex, c.symbolTable
 //@   ensures idx: c.scopeIndex == old(c.scopeIndex) - 1 && c.scopeIndex == len(c.scopes) - 1
 //@   ensures out: sameslice(instructions, old(c.scopes[c.scopeIndex].Instructions)) && sourceMap == old(c.scopes[c.scopeIndex].SourceMap)
-//@   ensures below: forall j in 0..len(c.scopes) :: sameslice(c.scopes[j].Instructions, old(c.scopes[j].Instructions)) && c.scopes[j].SourceMap == old(c.scopes[j].SourceMap)
+//@   ensures below: forall j in 0..len(c.scopes) at(c.scopeIndex) :: sameslice(c.scopes[j].Instructions, old(c.scopes[j].Instructions)) && c.scopes[j].SourceMap == old(c.scopes[j].SourceMap)
 //@   ensures st: !old(c.symbolTable.block) ==> c.symbolTable == old(c.symbolTable.parent)
 
 // dead-code elimination: closures passed to iterateInstructions are outside
@@ -895,8 +899,8 @@ package tengo
 //@   ensures keep{C02,C09,C11,C13}: result == nil ==> c.symbolTable == st0
 //@                   && c.scopeIndex == old(c.scopeIndex) && c.scopeIndex == len(c.scopes) - 1 && c.scopes[c.scopeIndex].SourceMap != nil
 //@   ensures grows{C02!}: result == nil ==> len(c.scopes[c.scopeIndex].Instructions) >= len(ins0)
-//@   ensures array{C02!}: result == nil ==> samearray(c.scopes[c.scopeIndex].Instructions, ins0) || fresh(c.scopes[c.scopeIndex].Instructions)
-//@   ensures below{C02!}: result == nil ==> forall j in 0..c.scopeIndex ::
+//@   ensures array{C02!}: result == nil ==> samestore(c.scopes[c.scopeIndex].Instructions, ins0) || fresh(c.scopes[c.scopeIndex].Instructions)
+//@   ensures below{C02!}: result == nil ==> forall j in 0..c.scopeIndex at(c.scopeIndex - 1) ::
 //@                   sameslice(c.scopes[j].Instructions, old(c.scopes[j].Instructions)) && c.scopes[j].SourceMap == old(c.scopes[j].SourceMap)
 //@   ensures prefix{C02!}: result == nil ==> forall i in 0..len(ins0) :: c.scopes[c.scopeIndex].Instructions[i] == old(c.scopes[c.scopeIndex].Instructions[i])
 
@@ -911,8 +915,8 @@ package tengo
 //@   ensures keep{C02,C09,C11,C13}: result == nil ==> c.symbolTable == st0
 //@                   && c.scopeIndex == old(c.scopeIndex) && c.scopeIndex == len(c.scopes) - 1 && c.scopes[c.scopeIndex].SourceMap != nil
 //@   ensures grows{C02!}: result == nil ==> len(c.scopes[c.scopeIndex].Instructions) >= len(ins0)
-//@   ensures array{C02!}: result == nil ==> samearray(c.scopes[c.scopeIndex].Instructions, ins0) || fresh(c.scopes[c.scopeIndex].Instructions)
-//@   ensures below{C02!}: result == nil ==> forall j in 0..c.scopeIndex ::
+//@   ensures array{C02!}: result == nil ==> samestore(c.scopes[c.scopeIndex].Instructions, ins0) || fresh(c.scopes[c.scopeIndex].Instructions)
+//@   ensures below{C02!}: result == nil ==> forall j in 0..c.scopeIndex at(c.scopeIndex - 1) ::
 //@                   sameslice(c.scopes[j].Instructions, old(c.scopes[j].Instructions)) && c.scopes[j].SourceMap == old(c.scopes[j].SourceMap)
 //@   ensures prefix{C02!}: result == nil ==> forall i in 0..len(ins0) :: c.scopes[c.scopeIndex].Instructions[i] == old(c.scopes[c.scopeIndex].Instructions[i])
 
@@ -926,17 +930,19 @@ package tengo
 //@   let st0 = old(c.symbolTable)
 //@   maintain m_len{C02!}: callok && c.scopeIndex == old(c.scopeIndex) && sameslice(c.scopes, old(c.scopes)) ==> len(c.scopes[c.scopeIndex].Instructions) >= len(ins0)
 //@   maintain m_prefix{C02!}: callok && c.scopeIndex == old(c.scopeIndex) ==> forall i in 0..len(ins0) :: c.scopes[c.scopeIndex].Instructions[i] == old(c.scopes[c.scopeIndex].Instructions[i])
+//@   maintain m_store{C02!}: callok && c.scopeIndex == old(c.scopeIndex) && sameslice(c.scopes, old(c.scopes)) ==> samestore(c.scopes[c.scopeIndex].Instructions, ins0) || fresh(c.scopes[c.scopeIndex].Instructions)
 //@   ensures keep{C02,C09,C11,C13}: result == nil ==> c.symbolTable == st0
 //@                   && c.scopeIndex == old(c.scopeIndex) && c.scopeIndex == len(c.scopes) - 1 && c.scopes[c.scopeIndex].SourceMap != nil
 //@   ensures grows{C02!}: result == nil ==> len(c.scopes[c.scopeIndex].Instructions) >= len(ins0)
-//@   ensures array{C02!}: result == nil ==> samearray(c.scopes[c.scopeIndex].Instructions, ins0) || fresh(c.scopes[c.scopeIndex].Instructions)
-//@   ensures below{C02!}: result == nil ==> forall j in 0..c.scopeIndex ::
+//@   ensures array{C02!}: result == nil ==> samestore(c.scopes[c.scopeIndex].Instructions, ins0) || fresh(c.scopes[c.scopeIndex].Instructions)
+//@   ensures below{C02!}: result == nil ==> forall j in 0..c.scopeIndex at(c.scopeIndex - 1) ::
 //@                   sameslice(c.scopes[j].Instructions, old(c.scopes[j].Instructions)) && c.scopes[j].SourceMap == old(c.scopes[j].SourceMap)
 //@   ensures prefix{C02!}: result == nil ==> forall i in 0..len(ins0) :: c.scopes[c.scopeIndex].Instructions[i] == old(c.scopes[c.scopeIndex].Instructions[i])
 
 //@ func (*Compiler).compileAssign
 //@   props C04
-//@   requires len(lhs) >= 1 && len(rhs) >= 1
+// syntax trees come from the parser: an assignment has at least one operand on each side
+//@   assumes ast_shape: len(lhs) >= 1 && len(rhs) >= 1
 //@   requires cwf: c.file != nil && c.symbolTable != nil && c.modules != nil && 0 <= c.scopeIndex && c.scopeIndex == len(c.scopes) - 1
 //@                   && c.scopes[c.scopeIndex].SourceMap != nil
 //@   assigns * except c.scopes[c.scopeIndex].Instructions[*]
@@ -944,19 +950,20 @@ package tengo
 //@   let st0 = old(c.symbolTable)
 //@   maintain m_len{C02!}: callok && c.scopeIndex == old(c.scopeIndex) && sameslice(c.scopes, old(c.scopes)) ==> len(c.scopes[c.scopeIndex].Instructions) >= len(ins0)
 //@   maintain m_prefix{C02!}: callok && c.scopeIndex == old(c.scopeIndex) ==> forall i in 0..len(ins0) :: c.scopes[c.scopeIndex].Instructions[i] == old(c.scopes[c.scopeIndex].Instructions[i])
+//@   maintain m_store{C02!}: callok && c.scopeIndex == old(c.scopeIndex) && sameslice(c.scopes, old(c.scopes)) ==> samestore(c.scopes[c.scopeIndex].Instructions, ins0) || fresh(c.scopes[c.scopeIndex].Instructions)
 //@   ensures keep{C02,C09,C11,C13}: result == nil ==> c.symbolTable == st0
 //@                   && c.scopeIndex == old(c.scopeIndex) && c.scopeIndex == len(c.scopes) - 1 && c.scopes[c.scopeIndex].SourceMap != nil
 //@   ensures grows{C02!}: result == nil ==> len(c.scopes[c.scopeIndex].Instructions) >= len(ins0)
-//@   ensures array{C02!}: result == nil ==> samearray(c.scopes[c.scopeIndex].Instructions, ins0) || fresh(c.scopes[c.scopeIndex].Instructions)
-//@   ensures below{C02!}: result == nil ==> forall j in 0..c.scopeIndex ::
+//@   ensures array{C02!}: result == nil ==> samestore(c.scopes[c.scopeIndex].Instructions, ins0) || fresh(c.scopes[c.scopeIndex].Instructions)
+//@   ensures below{C02!}: result == nil ==> forall j in 0..c.scopeIndex at(c.scopeIndex - 1) ::
 //@                   sameslice(c.scopes[j].Instructions, old(c.scopes[j].Instructions)) && c.scopes[j].SourceMap == old(c.scopes[j].SourceMap)
 //@   ensures prefix{C02!}: result == nil ==> forall i in 0..len(ins0) :: c.scopes[c.scopeIndex].Instructions[i] == old(c.scopes[c.scopeIndex].Instructions[i])
 //@   loop 0 invariant k: c.symbolTable == st0 && c.scopeIndex == old(c.scopeIndex) && c.scopeIndex == len(c.scopes) - 1 && c.scopes[c.scopeIndex].SourceMap != nil
-//@   loop 0 invariant g{C02!}: len(c.scopes[c.scopeIndex].Instructions) >= len(ins0) && (samearray(c.scopes[c.scopeIndex].Instructions, ins0) || fresh(c.scopes[c.scopeIndex].Instructions))
+//@   loop 0 invariant g{C02!}: len(c.scopes[c.scopeIndex].Instructions) >= len(ins0) && (samestore(c.scopes[c.scopeIndex].Instructions, ins0) || fresh(c.scopes[c.scopeIndex].Instructions))
 //@   loop 0 invariant b{C02!}: forall j in 0..c.scopeIndex :: sameslice(c.scopes[j].Instructions, old(c.scopes[j].Instructions)) && c.scopes[j].SourceMap == old(c.scopes[j].SourceMap)
 //@   loop 0 invariant p{C02!}: forall i in 0..len(ins0) :: c.scopes[c.scopeIndex].Instructions[i] == old(c.scopes[c.scopeIndex].Instructions[i])
 //@   loop 1 invariant k: c.symbolTable == st0 && c.scopeIndex == old(c.scopeIndex) && c.scopeIndex == len(c.scopes) - 1 && c.scopes[c.scopeIndex].SourceMap != nil
-//@   loop 1 invariant g{C02!}: len(c.scopes[c.scopeIndex].Instructions) >= len(ins0) && (samearray(c.scopes[c.scopeIndex].Instructions, ins0) || fresh(c.scopes[c.scopeIndex].Instructions))
+//@   loop 1 invariant g{C02!}: len(c.scopes[c.scopeIndex].Instructions) >= len(ins0) && (samestore(c.scopes[c.scopeIndex].Instructions, ins0) || fresh(c.scopes[c.scopeIndex].Instructions))
 //@   loop 1 invariant b{C02!}: forall j in 0..c.scopeIndex :: sameslice(c.scopes[j].Instructions, old(c.scopes[j].Instructions)) && c.scopes[j].SourceMap == old(c.scopes[j].SourceMap)
 //@   loop 1 invariant p{C02!}: forall i in 0..len(ins0) :: c.scopes[c.scopeIndex].Instructions[i] == old(c.scopes[c.scopeIndex].Instructions[i])
 
